@@ -205,9 +205,37 @@ def handleOrder (j : Json) : Except String Json := do
     let content ← parseItemsJ (← j.getObjVal? "content")
     pure (itemsRes (Order.iterCollapsed Order.scriptVisitor 4096 script content))
 
+/-- `scopes` = [[declarations in scope (innermost first), mapper tables]…]: the name mapping that the real
+    converter used in each lexical scope of the document (the harness has checked that it is one mapping per
+    scope); a scope that is not listed maps every name to itself -/
+def parseScopes (j : Json) : Except String (NsScope → Mapper) := do
+  let tbl ← (← j.getArr?).toList.mapM fun e => do
+    let q ← e.getArr?
+    if h : q.size = 2 then pure ((← strPairs q[0]), (← parseMapper q[1])) else throw "scope entry"
+  pure fun sc =>
+    match tbl.find? (·.1 == sc) with
+    | some p => p.2
+    | none => { mp := id, um := id, umA := id }
+
+/-- the document through the scoped recursion `decTreeS`/`encTreeS` (lossless converters, namespaces processed) -/
+def handleScoped (j : Json) : Except String Json := do
+  let m ← parseScopes (← j.getObjVal? "scopes")
+  let sch := (← (← getArr j "sch").mapM parseFacts)
+  let lookup : Nat → Option Facts := fun i => sch[i]?
+  let c : SConv ← match ← getStr j "conv" with
+    | "jsonml" => pure (JsonML.sconv m)
+    | "dataelement" => pure (DE.sconv m)
+    | c => throw s!"no scoped model of converter {c}"
+  let root ← parseNode sch 64 (← j.getObjVal? "root")
+  let .mk f hd _ := root
+  let data := decTreeS c [] root
+  let back := encTreeS c lookup 64 [] f hd.tag data
+  pure (Json.mkObj [("dec", jToJson data), ("enc", resJson back)])
+
 def handle (j : Json) : Except String Json := do
   if let .ok op := getStr j "op" then
     if op == "unordered" || op == "collapsed" then return ← handleOrder j
+    if op == "rtS" then return ← handleScoped j
   let c ← parseConv j
   let sch := (← (← getArr j "sch").mapM parseFacts)
   let lookup : Nat → Option Facts := fun i => sch[i]?
